@@ -1,11 +1,6 @@
 ---------------------------- MODULE RedirectMC ----------------------------
-(* Exhaustive model check of Redirect: every chain of <= MaxHops redirects over the full   *)
-(* spelling table, all statuses, Location forms, methods and limits.  The history          *)
-(* variables are hidden by the VIEW, so the state space is the design's own.               *)
+(* Exhaustive model check of Redirect: every chain of <= MaxHops redirects over the        *)
+(* spelling table, statuses, Location forms, methods and limits chosen by the .cfg.  The   *)
+(* history variables are hidden by the VIEW, so the state space is the design's own.       *)
 EXTENDS Redirect
-AllInits == { id \in SpellIds : SpellTab[id].kind = "ok" }
-AllTargets == SpellIds
-AllStatuses == {301, 302, 303, 307, 308}
-AllForms == {"abs", "absuc", "noscheme", "hostrel", "rel"}
-AllMethods == {"GET", "HEAD", "POST", "PUT"}
 =============================================================================
